@@ -1,15 +1,17 @@
 #!/bin/bash
-# confirm_seeded.sh <ID> <demo file name (in seeded/demo)> : confirm a seeded change in its scratch worktree /tmp/wt_<ID>
-# (development helper; not used by any check). Prints a log for meta.json.
-ID=$1; DEMO=$2; WT=/tmp/wt_$ID; T=$(basename $DEMO .rs)
+# confirm_seeded.sh <ID> <demo file name (in seeded/demo)> [package] [tests dir]: confirm a seeded change in its
+# scratch worktree /tmp/wt_<ID> (development helper; not used by any check). Prints a log for meta.json.
+ID=$1; DEMO=$2; PKG=${3:-mimium-test}; TDIR=${4:-crates/lib/mimium-test/tests}
+WT=/tmp/wt_$ID; T=$(basename $DEMO .rs)
 cd $WT || exit 2
 export CARGO_TARGET_DIR=$WT/target
 echo "== diff applies to: $(git diff --stat -- . ':!seeded' | tail -1)"
 echo "suite_with_change: $(cargo nextest run --workspace --no-fail-fast --test-threads 8 --offline 2>&1 | grep -E '^\s+Summary' | tail -1)"
-cp seeded/demo/$DEMO crates/lib/mimium-test/tests/
-echo "demo_with_change: $(cargo test -p mimium-test --test $T --offline 2>&1 | grep -E '^test result' | tail -1)"
-git stash -q
-echo "demo_without_change: $(cargo test -p mimium-test --test $T --offline 2>&1 | grep -E '^test result' | tail -1)"
-git stash pop -q
-rm -f crates/lib/mimium-test/tests/$DEMO
+mkdir -p $TDIR; cp seeded/demo/$DEMO $TDIR/
+echo "demo_with_change: $(cargo test -p $PKG --test $T --offline 2>&1 | grep -E '^test result' | tail -1)"
+# (not git stash: the stash is shared by all worktrees of a repository)
+git diff -- . ':!seeded' > /tmp/confirm_$ID.diff; git apply -R /tmp/confirm_$ID.diff
+echo "demo_without_change: $(cargo test -p $PKG --test $T --offline 2>&1 | grep -E '^test result' | tail -1)"
+git apply /tmp/confirm_$ID.diff
+rm -f $TDIR/$DEMO
 git status --short | grep -v seeded | head -5
